@@ -148,7 +148,7 @@ impl Workload for PersistWorkload {
         } else {
             *rng.pick(&VALID_K)
         };
-        let n = rng.range(2, 6);
+        let n = if rng.chance(12) { 1 } else { rng.range(2, 6) };
         let mut o = GenomeOpts::swarm(&mut rng, k);
         if rng.chance(10) {
             // thousands of k-mers
@@ -178,10 +178,11 @@ impl Workload for PersistWorkload {
                 2 | 3 => POp::Map { vcf: rng.chance(50), ambig_mask: rng.chance(30), repeat_mask: rng.chance(30) },
                 4 => POp::Distance { min_freq: ["0", "0.5", "1"][rng.below(3)].to_string(), allow_ambig: rng.chance(40) },
                 5 => POp::Weed { reverse: rng.chance(40) },
-                6 => {
+                6 if n >= 2 => {
                     let sub = rng.proper_subset(n);
                     POp::Delete { names: sub.iter().map(|i| names[*i].clone()).collect() }
                 }
+                6 => POp::Nk,
                 7 => POp::Merge,
                 _ => POp::Lo { with_ref: k >= 15 && rng.chance(50) },
             });
